@@ -242,4 +242,60 @@ theorem thetaTab : ∀ L ∈ List.range 9, Bessel.theta L = [[1], [1, 1], [3, 3,
     [135135, 135135, 62370, 17325, 3150, 378, 28, 1],
     [2027025, 2027025, 945945, 270270, 51975, 6930, 630, 36, 1]].getD L [] := by decide +kernel
 
+/-! ### MultiBWR: products of zipped lists -/
+
+theorem zipCx_map_toC (res : List (ℝ × ℝ)) (f : ℝ × ℝ → Cx) (g : ℝ × ℝ → ℂ) (h : ∀ r, toC (f r) = g r) (cs : List Cx) :
+    ((zipCx (res.map f) cs).map toC) = List.zipWith (fun r c => g r * toC c) res cs := by
+  induction res generalizing cs with
+  | nil => simp [zipCx]
+  | cons r t ih =>
+    cases cs with
+    | nil => simp [zipCx]
+    | cons c u => simp [zipCx, toC_mul, h, ih]
+
+theorem foldl_min_le (ls : List ℕ) (a l : ℕ) (hl : l ∈ ls) : ls.foldl Nat.min a ≤ l := by
+  induction ls generalizing a with
+  | nil => cases hl
+  | cons x t ih =>
+    simp only [List.foldl_cons]
+    rcases List.mem_cons.mp hl with h | h
+    · subst h
+      have : ∀ (t : List ℕ) (b : ℕ), t.foldl Nat.min b ≤ b := by
+        intro t
+        induction t with
+        | nil => intro b; simp
+        | cons y u ihu => intro b; simp only [List.foldl_cons]; exact le_trans (ihu _) (Nat.min_le_left _ _)
+      exact le_trans (this t _) (Nat.min_le_right _ _)
+    · exact ih _ h
+
+/-! ### Flatte: numeric channel momentum = sympy channel momentum (sheet bit 1) for real m > 0 -/
+
+theorem sqrt_quarter (x m : ℝ) (hx : 0 ≤ x) (hm : 0 < m) : Real.sqrt (x / 4 / (m * m)) = Real.sqrt x / 2 / m := by
+  have h : x / 4 / (m * m) = (Real.sqrt x / 2 / m) * (Real.sqrt x / 2 / m) := by
+    have e : (Real.sqrt x / 2 / m) * (Real.sqrt x / 2 / m) = (Real.sqrt x * Real.sqrt x) / 4 / (m * m) := by ring
+    rw [e, Real.mul_self_sqrt hx]
+  rw [h, Real.sqrt_mul_self (by positivity)]
+
+theorem calMomentum_eq_sym (m ma mb : ℝ) (hm : 0 < m) : calMomentum m ma mb = symCalMomentum m ma mb := by
+  unfold calMomentum symCalMomentum ksqrt kabs
+  simp only
+  set P := (m * m - (ma + mb) * (ma + mb)) * (m * m - (ma - mb) * (ma - mb)) with hP
+  have hmm : 0 < m * m := mul_pos hm hm
+  rcases lt_trichotomy P 0 with h | h | h
+  · have hneg : P / 4 / (m * m) < 0 := by
+      apply div_neg_of_neg_of_pos _ hmm
+      linarith
+    rw [if_neg (not_lt.mpr hneg.le), if_pos h, abs_of_neg hneg]
+    have : -(P / 4 / (m * m)) = (-P) / 4 / (m * m) := by ring
+    rw [this, sqrt_quarter (-P) m (by linarith) hm]
+  · simp [h]
+  · have hpos : 0 < P / 4 / (m * m) := by positivity
+    rw [if_pos hpos, if_neg (not_lt.mpr h.le), abs_of_pos hpos, sqrt_quarter P m h.le hm]
+
+/-- `(x/s, -y/s)` times `x + i y` is one unless both vanish -/
+theorem recip_mul' (x y : ℝ) (h : x ≠ 0 ∨ y ≠ 0) :
+    (⟨x / (x * x + y * y), -y / (x * x + y * y)⟩ : ℂ) * ⟨x, y⟩ = 1 := by
+  have := recip_mul x (-y) (by rcases h with h | h; exact Or.inl h; exact Or.inr (neg_ne_zero.mpr h))
+  simpa using this
+
 end TfPwaV.LineShapeR
